@@ -100,7 +100,7 @@ def tasks(tier, seed):
         out.append({"fn": "model", "kwargs": {"i": i}, "label": f"model/{m[0]}"})
         out.append({"fn": "model_twice", "kwargs": {"i": i}, "label": f"model_twice/{m[0]}"})
         out.append({"fn": "model", "kwargs": {"i": i, "step": 1 + i % 2}, "label": f"model/{m[0]}@later_step"})
-    for mode in ("exposure", "exposure_deprecated", "observation_seq", "observation_dask_fn", "fitness", "apply_parameters", "calibration"):
+    for mode in ("exposure", "exposure_deprecated", "observation_seq", "observation_dask_fn", "observation_dask", "fitness", "apply_parameters", "calibration"):
         out.append({"fn": "plumb", "kwargs": {"mode": mode}, "label": f"plumb/{mode}"})
     return out
 
@@ -491,6 +491,16 @@ def plumb(mode):
                     _run_pipelines_array_to_datatree(params_tuple=(v,), output_filename_suffix=None, dimension_names={"pipeline.photon_collection.p.arguments.a": "a"},
                                                      processor=Processor(detector=det, pipeline=pipe), readout=Readout(times=[1.0]), outputs=None, pipeline_seed=s, progressbar=False)
                 runs = 2
+            elif mode == "observation_dask":
+                # the whole parallel path (graph built by run_pipelines_with_dask), executed by dask's synchronous scheduler in this thread
+                import dask
+
+                obs = Observation(parameters=[ParameterValues(key="pipeline.photon_collection.p.arguments.a", values=[1, 2, 3])], readout=Readout(times=[1.0]), pipeline_seed=s, with_dask=True)
+                n_before = len(vxprobes.TRACE)
+                with dask.config.set(scheduler="synchronous"):
+                    res = pyxel.run_mode(mode=obs, detector=det, pipeline=pipe)
+                    res.load()
+                runs = len(vxprobes.TRACE) - n_before  # every execution of the pipeline (the run that fixes the result layout included)
             elif mode in ("fitness", "apply_parameters"):
                 from pyxel.calibration.fitting_datatree import ModelFittingDataTree
 
@@ -538,6 +548,12 @@ def _run_concrete(mode, seed):
             _run_exposure_pipeline_deprecated(processor=Processor(detector=det, pipeline=pipe), readout=Readout(times=[1.0, 2.0]), pipeline_seed=seed)
         elif mode == "observation_seq":
             pyxel.run_mode(mode=Observation(parameters=[ParameterValues(key=key, values=[1, 2, 3])], readout=Readout(times=[1.0]), pipeline_seed=seed), detector=det, pipeline=pipe)
+        elif mode == "observation_dask":
+            import dask
+
+            with dask.config.set(scheduler="synchronous"):
+                pyxel.run_mode(mode=Observation(parameters=[ParameterValues(key=key, values=[1, 2, 3])], readout=Readout(times=[1.0]), pipeline_seed=seed, with_dask=True),
+                               detector=det, pipeline=pipe).load()
         elif mode == "observation_dask_fn":
             from pyxel.observation.observation_dask import _run_pipelines_array_to_datatree
 
